@@ -116,12 +116,13 @@ theorem lock_expiry_rollback_index_witness :
 
 /-- While transaction A holds an unexpired lock on a row, an update or delete by any other
     transaction B whose condition matches that row changes NOTHING and returns an error;
-    when B is open (and the update names existing columns) the error is `LockConflict`. -/
+    when B is open (and the SET list is valid: existing columns, NULL only for nullable columns —
+    `updBad = false`) the error is `LockConflict`. -/
 theorem row_lock_exclusive (s : State) (A B t i : Nat) (T : Table) (cond : Cond)
     (hAB : A ≠ B) (hh : holder s t i = some A) (hT : s.tables t = some T) (hi : i ∈ matching T cond) :
     (∀ upd, ∃ e, txUpdate s B t cond upd = (s, .err e)) ∧ (∃ e, txDelete s B t cond = (s, .err e)) ∧
     (gate s B = none →
-      (∀ upd, upd.any (fun p => decide (p.1 ≥ T.ncols)) = false → txUpdate s B t cond upd = (s, .err .lockConflict)) ∧
+      (∀ upd, updBad T upd = false → txUpdate s B t cond upd = (s, .err .lockConflict)) ∧
       txDelete s B t cond = (s, .err .lockConflict)) := by
   have hb : lockBlocked s B t (matching T cond) = true := lockBlocked_of_holder hh hAB hi
   refine ⟨?_, ?_, ?_⟩
@@ -131,8 +132,8 @@ theorem row_lock_exclusive (s : State) (A B t i : Nat) (T : Table) (cond : Cond)
     | some e => exact ⟨e, rfl⟩
     | none =>
       simp only [hT]
-      by_cases hc : upd.any (fun p => decide (p.1 ≥ T.ncols)) = true
-      · exact ⟨.columnNotFound, by simp [hc]⟩
+      by_cases hc : updBad T upd = true
+      · exact ⟨updErr T upd, by simp [hc]⟩
       · exact ⟨.lockConflict, by simp [hc, hb]⟩
   · unfold txDelete
     cases hg : gate s B with
@@ -150,7 +151,7 @@ theorem row_lock_exclusive (s : State) (A B t i : Nat) (T : Table) (cond : Cond)
     transaction): lock conflict, and no table is touched -/
 theorem row_lock_exclusive_nontx (s : State) (A t i : Nat) (T : Table) (cond : Cond)
     (hA : A < s.nextTx) (hh : holder s t i = some A) (hT : s.tables t = some T) (hi : i ∈ matching T cond) :
-    (∀ upd, upd.any (fun p => decide (p.1 ≥ T.ncols)) = false →
+    (∀ upd, updBad T upd = false →
       (update s t cond upd).2 = .err .lockConflict ∧ (update s t cond upd).1.tables = s.tables) ∧
     (delete s t cond).2 = .err .lockConflict ∧ (delete s t cond).1.tables = s.tables := by
   -- the internal transaction is `s.nextTx ≠ A`, begun in a state with the same locks
@@ -689,7 +690,7 @@ example :
         the row is still there when old = new).
     `rollback_restores` uses this for every entry of a log; the swapped order fails it
     (`undo_add_before_remove_loses_entry_witness`). -/
-theorem undo_update_keeps_index_exact (T : Table) (t i : Nat) (r : Row) (old : List Int) (upd : List (Nat × Int))
+theorem undo_update_keeps_index_exact (T : Table) (t i : Nat) (r : Row) (old : List Val) (upd : List (Nat × Val))
     (h : IdxExact T) (hr : T.rows[i]? = some r) (ha : r.alive = true) (hl : old.length = T.ncols)
     (hupd : ∀ p ∈ upd, p.1 < T.ncols) (hvals : r.vals = applyUpd upd old) :
     let u := Undo.updated t i old (mkChg (T.hashOn ++ T.btreeOn) upd old)
@@ -824,7 +825,7 @@ theorem rollback_index_restore_witness :
     a later `create_btree_index` kept the ghost entry: a purely sequential script after which a
     range query returned the same row twice.  On the current code the answer is exact. -/
 theorem undo_ghost_btree_entry_witness :
-    let ops : List Op := [.createTable 2, .createIndex 0 0, .insert 0 [1, 1], .begin,
+    let ops : List Op := [.createTable 2 [], .createIndex 0 0, .insert 0 [1, 1], .begin,
         .txUpdate 1 0 (.idEq 0) [(0, 2)], .rollback 1, .update 0 (.idEq 0) [(0, 3)], .createBtree 0 0]
     let fin := runOld s0 ops
     (fin.tables 0).map (scanAnswer · (.ge 0 0)) = some [(0, [3, 1])] ∧
